@@ -6,7 +6,8 @@ usage: ctrans.py <repo> <lean-dir>
 The typed AST of every src/*.c translation unit is taken from clang (-ast-dump=json); the functions named in TARGETS
 are translated when their bodies lie inside the supported subset:
 
-  * statements: compound, if/else, return (no locals, no loops, no assignments);
+  * statements: compound, if/else, return, declarations of initialised unsigned locals that are never assigned again
+    (substituted), calls of other functions of the subset (inlined); no loops, no assignments;
   * expressions of UNSIGNED integer type over parameters, literals, global scalars (become leading parameters `g_<name>`),
     global arrays with constant initialisers (`[..].getD i 0`); + - * / % & | ^ << >> ~ with the wrap-around of the C type
     spelled out (`% 2^w`); comparisons, && || !, ?:; integral casts (narrowing = `% 2^w`); constant subexpressions of any
@@ -30,8 +31,14 @@ TARGETS = ['birthday_encode', 'birthday_decode', 'make_features', 'get_features'
 SHAPE = {'birthday_encode': (1, 'Nat'), 'birthday_decode': (1, 'Nat'), 'make_features': (1, 'Nat'), 'get_features': (2, 'Nat'),
          'is_encrypted': (1, 'Bool'), 'polyseed_features_supported': (2, 'Bool'), 'gf_elem_mul2': (1, 'Nat')}
 
+# the statics each tying theorem takes as leading arguments (a representation change of the state is not a function change)
+GLOBALS_OF = {'polyseed_features_supported': ['reserved_features']}
+
 UNSIGNED = {'unsigned char': 8, 'unsigned short': 16, 'unsigned int': 32, 'unsigned long': 64, 'unsigned long long': 64}
 SIGNED = {'signed char': 8, 'short': 16, 'int': 32, 'long': 64, 'long long': 64}
+
+
+ALLF = {}
 
 
 class Bail(Exception):
@@ -70,11 +77,14 @@ def wrap(v, k):
 
 
 class Fn:
-    def __init__(self, node, globs):
+    def __init__(self, node, globs, funcs=None, depth=0):
         self.node = node
         self.globs = globs
+        self.funcs = funcs or {}
+        self.depth = depth
         self.params = []
         self.gparams = []
+        self.env = {}          # C name of a parameter or single-assignment local -> Lean term
 
     # ---- constants
     def const(self, e):
@@ -134,10 +144,12 @@ class Fn:
             return self.val(e['inner'][0])
         if k == 'DeclRefExpr':
             d = e['referencedDecl']
-            if d['kind'] == 'ParmVarDecl':
-                if kind(ctype(e))[0] != 'u':
-                    raise Bail('signed parameter ' + d['name'])
-                return 'a_' + d['name']
+            if d['kind'] == 'ParmVarDecl' or (d['kind'] == 'VarDecl' and d['name'] in self.env):
+                if kind(ctype(e))[0] not in ('u', 'b'):
+                    raise Bail('signed variable ' + d['name'])
+                if d['name'] not in self.env:
+                    raise Bail('unbound ' + d['name'])
+                return self.env[d['name']]
             if d['kind'] == 'VarDecl' and d['name'] in self.globs and self.globs[d['name']][0] == 'scalar':
                 if kind(ctype(e))[0] != 'u':
                     raise Bail('signed global')
@@ -171,6 +183,27 @@ class Fn:
                 if g[0] == 'array':
                     return '([%s].getD %s 0)' % (', '.join(str(x) for x in g[1]), self.val(idx))
             raise Bail('subscript')
+        if k == 'CallExpr':
+            callee = e['inner'][0]
+            while callee.get('kind') in ('ImplicitCastExpr', 'ParenExpr'):
+                callee = callee['inner'][0]
+            name = (callee.get('referencedDecl') or {}).get('name')
+            if callee.get('kind') != 'DeclRefExpr' or name not in self.funcs or self.depth > 4:
+                raise Bail('call of ' + str(name))
+            sub = Fn(self.funcs[name], self.globs, self.funcs, self.depth + 1)
+            sub.gparams = self.gparams
+            pnames = [c for c in self.funcs[name].get('inner', []) if c['kind'] == 'ParmVarDecl']
+            args = e['inner'][1:]
+            if len(pnames) != len(args):
+                raise Bail('call arity')
+            for pn, a in zip(pnames, args):
+                if kind(ctype(pn))[0] != 'u':
+                    raise Bail('signed parameter in a call')
+                sub.env[pn['name']] = self.val(a)
+            body = [c for c in self.funcs[name].get('inner', []) if c['kind'] == 'CompoundStmt']
+            if not body:
+                raise Bail('call of a function without body')
+            return sub.stmts([body[0]], False)
         if k == 'ConditionalOperator':
             c, a, b = e['inner']
             return '(if %s then %s else %s)' % (self.cond(c), self.val(a), self.val(b))
@@ -252,6 +285,15 @@ class Fn:
             return self.stmts(list(s.get('inner', [])) + rest, boolres)
         if k == 'NullStmt':
             return self.stmts(rest, boolres)
+        if k == 'DeclStmt':
+            for v in s.get('inner', []):
+                if v.get('kind') != 'VarDecl' or v.get('storageClass') == 'static' or v['name'] in self.env:
+                    raise Bail('declaration')
+                init = [c for c in v.get('inner', []) if 'Expr' in c.get('kind', '') or c.get('kind') in ('IntegerLiteral', 'BinaryOperator', 'UnaryOperator', 'ConditionalOperator')]
+                if len(init) != 1 or kind(ctype(v))[0] != 'u':
+                    raise Bail('local ' + v['name'])
+                self.env[v['name']] = self.val(init[0])
+            return self.stmts(rest, boolres)
         if k == 'ReturnStmt':
             e = s['inner'][0]
             return ('(decide %s)' % self.cond(e)) if boolres else self.val(e)
@@ -272,6 +314,7 @@ class Fn:
                 if kp[0] != 'u':
                     raise Bail('parameter type ' + ctype(c))
                 self.params.append(('a_' + c['name'], kp[1]))
+                self.env[c['name']] = 'a_' + c['name']
             elif c['kind'] == 'CompoundStmt':
                 body = c
         if body is None:
@@ -296,6 +339,8 @@ def ast_of(repo, src):
 
 def collect(repo):
     funcs, globs = {}, {}
+    global ALLF
+    ALLF = {}
     for src in sorted(glob.glob(os.path.join(repo, 'src', '*.c'))):
         if os.path.basename(src).startswith('lang_'):
             continue
@@ -303,6 +348,8 @@ def collect(repo):
         if tu is None:
             continue
         for n in tu.get('inner', []):
+            if n.get('kind') == 'FunctionDecl' and any(c.get('kind') == 'CompoundStmt' for c in n.get('inner', [])):
+                ALLF.setdefault(n['name'], n)
             if n.get('kind') == 'FunctionDecl' and n.get('name') in TARGETS and any(c.get('kind') == 'CompoundStmt' for c in n.get('inner', [])):
                 inc = (n.get('loc') or {}).get('includedFrom') or (n.get('range', {}).get('begin') or {}).get('includedFrom')
                 funcs.setdefault(n['name'], (n, 'as seen from ' + os.path.relpath(src, repo)))
@@ -335,11 +382,13 @@ def main():
         why = 'no definition found under this name'
         if name in funcs:
             node, where = funcs[name]
-            f = Fn(node, globs)
+            f = Fn(node, globs, ALLF)
             try:
                 term, rk = f.translate()
                 args = ['g_' + g for g in f.gparams] + [p for p, _ in f.params]
-                if len(args) != arity or rk != res:
+                if f.gparams != GLOBALS_OF.get(name, []):
+                    term, why = None, 'reads other state (%s) than the tying theorem is written for' % ', '.join(f.gparams)
+                elif len(args) != arity or rk != res:
                     term, why = None, 'signature differs from the one the tying theorem is written for (%s -> %s)' % (' '.join(args), rk)
             except Bail as ex:
                 term, why = None, 'outside the translatable subset: %s' % ex
